@@ -74,6 +74,8 @@ def compare_oracle(nobj):
 def roundtrip_jobs(quick):
     jobs = []
     profs = {0: [(0,), (1,), (3,)], 1: [(0,), (2,)], 2: [(4, 0), (4, 2), (3, 3)], 3: [(2, 3, 0), (3, 2, 2), (2, 2, 4)], 4: [(3, 3, 0, 0), (3, 3, 2, 1), (4, 2, 3, 2)], 5: [(2, 2, 0), (2, 1, 2)], 6: [(2, 2, 1), (3, 2, 2), (2, 3, 3)], 7: [(2, 3), (1, 1)]}
+    if not quick:
+        profs[0] += [(6,)]; profs[1] += [(3,)]; profs[2] += [(6, 4)]; profs[3] += [(4, 3, 5), (1, 5, 3)]; profs[4] += [(5, 3, 4, 3)]; profs[5] += [(2, 3, 3)]; profs[6] += [(4, 3, 4)]; profs[7] += [(3, 3), (1, 6)]
     for kind, plist in profs.items():
         for prof in plist:
             a, b, c, d = (list(prof) + [0, 0, 0])[:4]
@@ -117,7 +119,7 @@ def main():
     only = os.environ.get('C05_ONLY')
     if only:
         jobs = [j for j in jobs if only in j[0]]
-    chk.bounds.append('E3: binary serialize/deserialize of DenseVector, DenseVectorBlocked<2>, SparseVector, CSR, CSCR, BCSR<2,2>, Banded, DenseMatrix with sizes 0..4 (incl. length 0, entry-free and empty-row shapes: row pointers are arbitrary symbolic values), ALL values and indices symbolic 64-bit patterns, stream index type 64-bit and 32-bit (indices < 2^32); checkpoints with up to three objects and identifier lengths from 1 to 30 (sum below and above the 16-byte padding), restored in a different order, directly and through the BinaryStream image')
+    chk.bounds.append('E3: binary serialize/deserialize of DenseVector, DenseVectorBlocked<2>, SparseVector, CSR, CSCR, BCSR<2,2>, Banded, DenseMatrix with sizes 0..4 (thorough: up to 6) (incl. length 0, entry-free and empty-row shapes: row pointers are arbitrary symbolic values), ALL values and indices symbolic 64-bit patterns, stream index type 64-bit and 32-bit (indices < 2^32); checkpoints with up to three objects and identifier lengths from 1 to 30 (sum below and above the 16-byte padding), restored in a different order, directly and through the BinaryStream image')
     chk.assume('text file modes (MatrixMarket, exponent text) run through libstdc++ stream formatting/parsing, which is compiled library code outside the IR: NOT covered (the defect of the MatrixMarket reader for rows without entries mentioned in the property text is therefore not examined here); compression (zlib/zfp) is not compiled in; data type conversion double<->float in the stream is outside (floating-point conversion of symbolic values)',
                'CheckpointControl private members are reached with "#define private public" in the harness; the two ostream::write calls of save(BinaryStream&) are replaced by the equivalent memcpy of [length][bytes]; DistFileIO is outside')
     return e3run.run_jobs(chk, mod, native, jobs, info, quick, SIGS, 'c05',
